@@ -50,7 +50,8 @@ PROPS = {
                        'program-chosen operand; no RefMut of a heap cell is alive across a may-collect call; opcode/value dispatch '
                        'tables are total in every sibling; every recursion cycle reachable from run/collect is a recorded one; the '
                        'value-stack push is capacity-tested in every configuration.'
-                       ' Rounds 3-5: R1 (complete tracing), H4 (no mutable map borrow while a key is formatted), B4 (no truncated jump operand), L6 (no stale throw site) also run here.',
+                       ' Rounds 3-5: R1 (complete tracing), H4 (no mutable map borrow while a key is formatted), B4 (no truncated jump operand), L6 (no stale throw site) also run here.'
+                       ' Round 6: V2 (no debug-only assertion on a data-dependent step count) and V5 (checked arithmetic on program-chosen integers) also run here.',
         'assumptions': COMMON_ASSUME,
         'not_decided': ['that each remaining unwrap/expect/index in the VM is unreachable (they depend on the compiler/VM contract, C04)',
                         'integer-overflow asserts', 'host natives beyond P1/P2'],
@@ -69,7 +70,8 @@ PROPS = {
                        'functions that remove call frames also remove those frames\' handlers; (X4) the catch entry does not pop a second '
                        'handler.'
                        ' Later additions (DESIGN 3a.5/3a.6): X6 handler addresses from widened operands, X7 nothing happens after a delivered error, X8 in_try_block scoping, X9 every frame-list change is followed by load_frame, X10 the outcome pending during a finally block must be stored per entry (three known findings), X11 a return out of a finally block must discard the in-flight state (one known finding).'
-                       ' Rounds 3-5: X12 the catch block must run under a handler leading to finally (known finding), X13 one JumpFinally per nesting level, X14 the parked return value is traced, N1.',
+                       ' Rounds 3-5: X12 the catch block must run under a handler leading to finally (known finding), X13 one JumpFinally per nesting level, X14 the parked return value is traced, N1.'
+                       ' Round 6: B4 (handler offsets are not truncated) also runs here.',
         'assumptions': COMMON_ASSUME,
         'not_decided': ['which handler receives which exception at run time', '"finally runs exactly once" on every exit (dynamic)',
                         'exceptions thrown inside catch/finally blocks'],
@@ -86,7 +88,8 @@ PROPS = {
                        'CloseUpvalue/Pop from the capture flag which only resolve_upvalue sets; the (is_local, index) capture descriptors '
                        'are written and read in the same order and count.'
                        ' Later additions (DESIGN 3a.5/3a.6): S1\' closes from the new height, S4 the open-upvalue list stays ordered, S5 upvalues are closed only for slots that are discarded.'
-                       ' Rounds 3-5: S2 on every path incl. break/continue, S4 also for a vector representation and keeps the list tail, S6 frame removal is dominated by close_upvalues, X9.',
+                       ' Rounds 3-5: S2 on every path incl. break/continue, S4 also for a vector representation and keeps the list tail, S6 frame removal is dominated by close_upvalues, X9.'
+                       ' Round 6: B4 (an upvalue index that does not fit its operand byte) also runs here.',
         'assumptions': COMMON_ASSUME,
         'not_decided': ['name resolution results', 'ordering of the open-upvalue list', 'sharing across fibers at run time'],
         'level_text': 'Decides S1-S3 for every stack-lowering site and the capture emit/read siblings; what a name resolves to is not decided.',
@@ -100,7 +103,8 @@ PROPS = {
                        'write of Vm.fiber is paired with a write of Vm.unsafe_fiber derived from the same fiber with no active-fiber use in '
                        'between; each frame/fiber switch saves the running ip first; each switch writes the result slot of the resumed side.'
                        ' Later additions (DESIGN 3a.5/3a.6): F4 switch errors are raised before link state is written; S5 a yield does not close the suspended fiber\'s upvalues.'
-                       ' Rounds 3-5: S5/S6/S1 (upvalues across yields and at fiber end), X3 handlers dropped on the same fiber, F2 into the innermost frame, F5 finished is tested first.',
+                       ' Rounds 3-5: S5/S6/S1 (upvalues across yields and at fiber end), X3 handlers dropped on the same fiber, F2 into the innermost frame, F5 finished is tested first.'
+                       ' Round 6: F6 a switch overwrites no VM-wide state besides the fiber pointers and the frame registers, F7 call_native removes arguments only for natives that do not manage the stack.',
         'assumptions': COMMON_ASSUME,
         'not_decided': ['interleavings of several fibers', 'per-fiber isolation of locals/handlers at run time',
                         'that error cases leave every fiber untouched'],
@@ -116,7 +120,8 @@ PROPS = {
                        'listed guarded site; debug_assert! sites are enumerated; the dev and release worlds (plus each safe_* feature world '
                        'in the thorough tier) are compared item by item; the world-sensitive rules (active-fiber pairing, dispatch totality) '
                        'are re-evaluated on the release world.'
-                       ' Round 5: V5 covers abs/pow/neg at isize::MIN; F4 and G2 also run here.',
+                       ' Round 5: V5 covers abs/pow/neg at isize::MIN; F4 and G2 also run here.'
+                       ' Round 6: V2 also rejects a debug-only cap on the step count of a data-dependent loop; R1 (complete tracing: the stress and the paced collector expose an untraced edge differently) also runs here.',
         'assumptions': COMMON_ASSUME + ['C01 (pacing arms are equivalent only if collection is safe at every allocation)',
                                         'C04/C02 (check-only arms differ only when the checked condition holds)'],
         'not_decided': ['observable equality of outputs (needs both binaries to run)'],
@@ -134,7 +139,8 @@ PROPS = {
                        'run-reachable code writes them and execute does not reset them; the Err arm of a run reaches reset_stack; no '
                        'debug-only assertion reads cross-run state; reset() re-initialises every persistent field a run can change.'
                        ' Later additions (DESIGN 3a.6): M4 a failed import leaves no half-registered module.'
-                       ' Rounds 3-5: N5 compile() writes only chunks and the intern table, N6 reset() clears main\'s globals, F5.',
+                       ' Rounds 3-5: N5 compile() writes only chunks and the intern table, N6 reset() clears main\'s globals, F5.'
+                       ' Round 6: E7 (a failed global assignment defines nothing) also runs here.',
         'assumptions': COMMON_ASSUME + ['classification of Vm fields in rules/tables/c15_vm_fields.json'],
         'not_decided': ['behavioural equivalence with one program run piecewise', 'that reset() is observably identical to a new Vm'],
         'level_text': 'Decides N1-N4 for all 17 fields of Vm and the execute/runtime_error/reset paths.',
@@ -150,7 +156,8 @@ PROPS = {
                        'the chunk of the frame whose ip it uses, innermost frame first; error_at formats its token\'s line and is the only '
                        'writer of the error list; every newline the scanner matches increments its line counter.'
                        ' Later additions (DESIGN 3a.5/3a.6): L4 who may set / clear the recorded throw site, L5 line numbers keep at least 32 bits, L6 the recorded throw site never outlives its frame.'
-                       ' Rounds 3-5: L7 no synthetic token reaches an error or line record, L8 the integrality classifier, N1.',
+                       ' Rounds 3-5: L7 no synthetic token reaches an error or line record, L8 the integrality classifier, N1.'
+                       ' Round 6: L9 the class named in an uncaught-error report is the instance\'s own class; B5 (the frame limit is tested before the push) also runs here.',
         'assumptions': COMMON_ASSUME,
         'not_decided': ['that reported lines are the right ones for every call shape', 'message texts'],
         'level_text': 'Decides L1-L3 for the two error tables, the line table writers and the scanner newline sites.',
@@ -164,7 +171,8 @@ PROPS = {
                        'Value nest (hashable subset of hashed subset of comparable); every HashMap<Value,..> operation on ObjHashMap.elements '
                        'takes a key that passed has_hash/validate_hash_map_key on a dominating edge; hash_number canonicalises zero before '
                        'taking the bit pattern (0.0 == -0.0); the target map is borrowed mutably only after validation. Key liveness is C01.R1.'
-                       ' Rounds 4-5: H6 literal and insert store alike, H7 hashable heap kinds are traced, P8.',
+                       ' Rounds 4-5: H6 literal and insert store alike, H7 hashable heap kinds are traced, P8.'
+                       ' Round 6: H7 also demands that the map\'s own key and value edges are traced whole (not one variant only); H8 the entry count of a literal is widened before it is doubled.',
         'assumptions': COMMON_ASSUME + ['std::collections::HashMap implements a map for coherent Hash/Eq'],
         'not_decided': ['agreement with an abstract map over all operation histories', 'enumeration order / exactly-once of keys/values/items'],
         'level_text': 'Decides H1-H4: the Hash/Eq coherence conditions under which the std HashMap is a map keyed by the language\'s ==.',
@@ -182,7 +190,8 @@ PROPS = {
                        'interval interpreter proves every usize->u8/u16 cast operand fits on error-free paths; (B5) limits fit their '
                        'operand widths; (B6) the line table is parallel to the code.'
                        ' Later additions (DESIGN 3a.5/3a.6): B2w widened operands, B7 every body is terminated, B8 nothing is emitted after an unconditional Jump/Loop/Return without a label, B9 no refusal of the Compiler:: bookkeeping layer is dropped, B10 handler-entry stack height (one known finding), X8 in_try_block is true exactly for the try body.'
-                       ' Rounds 4-5: B4n no sub-word counter arithmetic can overflow in the compiler.',
+                       ' Rounds 4-5: B4n no sub-word counter arithmetic can overflow in the compiler.'
+                       ' Round 6: T4 (every limit refuses on its exceeding side) and S2 (captured locals leave through CloseUpvalue on every path) also run here.',
         'assumptions': COMMON_ASSUME + ['field bounds in rules/tables/c04_field_bounds.json (each re-verified against its guarded writer)'],
         'not_decided': ['that one instruction is never reached with two operand-stack heights', 'that operands name existing locals/captures '
                         '(properties of generated code; a bytecode verifier over compiler output would be a different technique family)'],
@@ -200,7 +209,8 @@ PROPS = {
                        'exists and no safe &mut to a managed string can be obtained; the intern table\'s probe loop has a free slot (load '
                        'factor < 1, power-of-two capacity, mask = capacity - 1) and matches only on equal hash and equal text. Under these '
                        'conditions handle equality (used by ==, Hash, globals, fields, methods) coincides with content equality.'
-                       ' Round 5: I5 the hasher has no alignment- or address-dependent step.',
+                       ' Round 5: I5 the hasher has no alignment- or address-dependent step.'
+                       ' Round 6: V2 (no debug-only cap on probe steps) also runs here.',
         'assumptions': COMMON_ASSUME + ['the FNV hash and str == of the standard library are functions of the bytes'],
         'not_decided': ['functional correctness of the open-addressing table over all insertion histories (a model-checking question)'],
         'level_text': 'Decides I1-I4: the structural conditions under which interning makes identity equal content equality.',
@@ -216,7 +226,8 @@ PROPS = {
                        'every str range-index are checked character boundaries on a dominating path or come from the boundary-scanning '
                        'iterator. Byte-exact agreement of results with a reference model is NOT decided.'
                        ' Later additions (DESIGN 3a.5/3a.6): U4 overflow-checked index arithmetic; U5 the range cache hits only on full-width equality of both bounds.'
-                       ' Rounds 3-5: U5 range-cache equality, U6 slices always copy, R5b operands stay rooted until the slice exists.',
+                       ' Rounds 3-5: U5 range-cache equality, U6 slices always copy, R5b operands stay rooted until the slice exists.'
+                       ' Round 6: D1/D2 (number <-> string conversions are std\'s Display / parse::<f64> on the whole text) also run here.',
         'assumptions': COMMON_ASSUME,
         'not_decided': ['byte-exact results of every string function and of negative-index arithmetic (numerical/behavioural: needs '
                         'execution against a model)', 'documented error kind per failing input'],
@@ -234,10 +245,11 @@ PROPS = {
                        'active_module; closures record the module they were created in; every failure edge of start_import_impl goes '
                        'through try_handle_error with ErrorKind::ImportError.'
                        ' Later additions (DESIGN 3a.5/3a.6): X7 nothing after a delivered ImportError; M4 registration only after load and compile succeeded; X9 the active module is reloaded whenever the frame list changes.'
-                       ' Rounds 3-5: M4c compile() reaches no registry writer, M5 key = path as written / removal only in reset / built-ins from the class store.',
+                       ' Rounds 3-5: M4c compile() reaches no registry writer, M5 key = path as written / removal only in reset / built-ins from the class store.'
+                       ' Round 6: M6 every core class the interpreter reads back from main\'s globals is exported to each new module under the same name (found defect fd417cd).',
         'assumptions': COMMON_ASSUME,
         'not_decided': ['that every import yields the *same* object at run time (follows from the single registry writer, not executed)',
-                        'visibility of built-ins in every module (init_built_in_globals contents)'],
+                        'that the built-ins behave the same in every module (only the set of exported names and the classes behind them is decided, by M6)'],
         'level_text': 'Decides M1-M3 for the import handler, the registry and the global-variable handlers.',
         'design_ref': 'DESIGN.md section 1, C14',
         'level_note': 'Trusted: rustc front end + MIR, the extractor.',
@@ -252,12 +264,14 @@ PROPS = {
                        'raise a binary operator\'s precedence; every comparison with an encoding limit refuses on its exceeding side; the '
                        'only recursive cycles are the recorded recursive-descent ones.'
                        ' Later additions (DESIGN 3a.5/3a.6): T6 scanner slices only at character boundaries; T7 take_attribute hands an attribute out only with exactly the requested argument count, and constant indexes into attr.arguments stay below it.'
-                       ' Rounds 4-5: T8 every element-wise read in the scanner is preceded by a length comparison. Termination of error recovery is decided only as "each parser loop iteration calls something that may scan".',
+                       ' Rounds 4-5: T8 every element-wise read in the scanner is preceded by a length comparison. Termination of error recovery is decided only as "each parser loop iteration calls something that may scan".'
+                       ' Round 6: T6 also checks the producer (a position computed by arithmetic on the argument is compared with len() before it is returned); T9 no parser loop can go round without consuming a token, for any kind of current token (abstract interpretation over token-kind sets with per-function summaries; c03_progress.py).',
         'assumptions': COMMON_ASSUME,
-        'not_decided': ['termination of every recovery path and absence of slicing/unwrap panics on garbled input (for-all-inputs statements '
-                        'about a hand-written parser: need execution, e.g. fuzzing, which is outside this technique family)',
+        'not_decided': ['absence of slicing/unwrap panics on garbled input beyond the scanner rules T6/T8 (a for-all-inputs statement about a hand-written parser)',
+                        'termination is decided per loop (T2 scanner, T9 parser: no token-testing loop can go round unconsumed); loops driven by data rather than '
+                        'by tokens, and indirect calls, are taken as they are',
                         'native stack depth for deeply nested source (recursion depth = nesting depth; no bound is stated in the code)'],
-        'level_text': 'Decides T1-T5; totality of the parser on all inputs is not decided.',
+        'level_text': 'Decides T1-T9; absence of panics in the parser on all inputs is not decided.',
         'design_ref': 'DESIGN.md section 1, C03',
         'level_note': 'Trusted: rustc front end + MIR/HIR, the extractor, rules/tables/c03_recursion_ok.json.',
         'technique': 'who-may-write + must-pass/back-edge progress rules over MIR, table invariants over HIR (rustc_private driver)',
@@ -270,7 +284,8 @@ PROPS = {
                        'right operand); every branch placeholder is patched (C04.B3) and loop back-jumps target the innermost recorded '
                        'header.'
                        ' Later additions (DESIGN 3a.5/3a.6): E4 shared immutable values are never written after construction; E5 each interpolation part is rendered before the next part is evaluated.'
-                       ' Rounds 3-5: E6 one integrality classifier (+-inf integral), E7 a failed global assignment defines nothing, T3 the precedence table.',
+                       ' Rounds 3-5: E6 one integrality classifier (+-inf integral), E7 a failed global assignment defines nothing, T3 the precedence table.'
+                       ' Round 6: U2 (slice bounds) also runs here.',
         'assumptions': COMMON_ASSUME,
         'not_decided': ['precedence / associativity table contents', 'value results and error kinds per operand kind',
                         'statement-level control flow at run time', 'evaluate-once and left-to-right order of sub-expressions'],
@@ -286,7 +301,8 @@ PROPS = {
                        'class, same error kind and message; both places where a method table is merged (ObjClass::new and the Inherit '
                        'handler) copy the inherited methods before own methods are added, and the compiler emits Inherit before any '
                        'method definition.'
-                       ' Rounds 4-5: K4 super\'s receiver is the nearest enclosing method of any kind; S2/S4 for classes captured by their own methods.',
+                       ' Rounds 4-5: K4 super\'s receiver is the nearest enclosing method of any kind; S2/S4 for classes captured by their own methods.'
+                       ' Round 6: K5 `Self` ends in an instruction whose handler takes the class of the receiver at run time.',
         'assumptions': COMMON_ASSUME,
         'not_decided': ['dispatch results', 'what Self / super denote at run time', 'constructor protocol', 'static-method Self'],
         'level_text': 'Decides K1-K2 only; explicitly a fragment of the property.',
@@ -322,7 +338,8 @@ PROPS = {
                        'follows. That the std formatter/parser pair round-trips every double is std\'s documented guarantee and is the '
                        'stated trusted base, not something decided here.'
                        ' Later addition (DESIGN 3a.6): D4 no second number-to-text path in String.from / interpolation.'
-                       ' Rounds 3-5: D2 parse\'s Ok payload reaches the result unfiltered and every parse on the way is parse::<f64>.',
+                       ' Rounds 3-5: D2 parse\'s Ok payload reaches the result unfiltered and every parse on the way is parse::<f64>.'
+                       ' Round 6: D4 also covers print and requires every string value made by String.from / interpolation to be the one just formatted (no remembered text).',
         'assumptions': COMMON_ASSUME + ['Rust std: `Display for f64` prints the shortest decimal that parses back to the same value, integral '
                                         'values without a fraction, "NaN" and "inf"; `str::parse::<f64>` is correctly rounded and accepts those'],
         'not_decided': ['the round trip itself for all doubles (delegated to std\'s guarantee)', 'which double a literal denotes beyond "what std parses"'],
